@@ -154,6 +154,16 @@ def wStep (s : Sim) (ws : List String) : Sim × String :=
       | some x => report s ({ s with failNext := false }.ext (.direct x (!s.failNext))) false
       | none => (s, "bad-op")
     | ["failnext"] => ({ s with failNext := true }, "failnext")
+    | "gclose" :: rest =>
+      match parseItems rest with
+      | some xs =>
+        let s1 := s.gclose xs
+        let newTx := s1.w.tx.drop s.w.tx.length
+        let res := match (s1.w.results.drop s.w.results.length).head? with
+          | some (_, r, _) => fmtRes r
+          | none => "?"
+        (s1, s!"res={res} overlap=0 " ++ fmtTx newTx ++ s!" qlen={s1.w.q.cnt}")
+      | none => (s, "bad-op")
     | _ => (s, "bad-op")
 
 def step (s : St) (line : String) : St × String :=
